@@ -513,7 +513,7 @@ fn main() {
     });
     rep.sample(|| json!({"example_boundaries_scaled": &bounds[30..40]}));
     if is_miri() {
-        println!("OUTCOME evaluations={}", rep.evaluations());
+        println!("OUTCOME evaluations={} observations={} aligned_rounds={} windows={}", rep.evaluations(), rep.counter("observations_recorded"), rep.counter("aligned_concurrent_rounds"), rep.counter("strategy_reuse_windows_checked"));
     }
     rep.finish_and_exit();
 }
